@@ -408,6 +408,10 @@ def evidence(prop, tier, seed, info, cases, n_spec, disagreements, failures, bro
         per_comp[c['component']]['disagreements'] += 1
     spec = plan.PROPS[prop]
     used = sorted({a for v in axioms.values() for a in v})
+    mix = {}
+    for c in cases:
+        for tag in plan.mix_tags(c):
+            mix[tag] = mix.get(tag, 0) + 1
     cov = {
         'obligations': len(names),
         'discharged': len([n for n in names if f'{prop}.{n}' in axioms]) if not any('proof obligations' in b for b in broken) else 0,
@@ -426,6 +430,7 @@ def evidence(prop, tier, seed, info, cases, n_spec, disagreements, failures, bro
                          'observables of the property; distinct = distinct lines; non-trivial = ' + plan.NONTRIVIAL_RULE),
         'samples': [c['line'][:300] for c in cases[:2] + cases[len(cases) // 2:len(cases) // 2 + 2]],
         'components': per_comp,
+        'input_mix': dict(sorted(mix.items())),
         'oracle_checks': sum(k['oracle_checks'] for k in per_comp.values()),
         'spec_crosschecks': n_spec,
         'disagreements': len(disagreements),
